@@ -113,6 +113,253 @@ def validate(enc, vectors, n_in, cap=120):
     return len(rs) - len(bad), bad
 
 
+class Sym:
+    """several symbolic instantiations of MIR functions sharing one SMT script"""
+
+    def __init__(self, funcs, input_names):
+        self.funcs = funcs
+        self.ex = M.Exec(funcs)
+        self.inputs = input_names
+        self.defs = []
+
+    def call(self, pattern, args):
+        f = M.find_func(self.funcs, pattern)
+        n0 = len(self.ex.panics)
+        outs = self.ex.run(f, args)
+        v = self.ex.merge(outs, f.ret)
+        pan = [p for p, _ in self.ex.panics[n0:]]
+        return v, ("(or false " + " ".join(pan) + ")" if pan else "false")
+
+    def header(self, extra_defs=""):
+        s = ["(set-logic ALL)", M.PRELUDE]
+        for n in self.inputs:
+            s.append(f"(declare-const {n} {F32})")
+        s += self.ex.decls
+        s += [f"(assert {c})" for c in self.ex.side]
+        return "\n".join(s) + "\n" + extra_defs
+
+
+def color3(a, b, c):
+    arr = M.Val(None, "[f32; 3]", fields=[M.Val(a, "f32"), M.Val(b, "f32"), M.Val(c, "f32")])
+    return M.Val(None, "Color", fields=[arr, M.Val(None, "()", fields=[], kind="unit")])
+
+
+def chans(v):
+    return [x.term for x in v.fields[0].fields]
+
+
+TO_RGB = r"color.rs:\d+:1: \d+:18>::to_rgb$"
+TO_HSL = r"color.rs:\d+:1: \d+:18>::to_hsl$"
+
+
+def pick(funcs, tail, param_ty):
+    hits = [k for k, f in funcs.items() if k.endswith(tail) and f.params and f.params[0][1].replace(" ", "") == param_ty.replace(" ", "")]
+    if len(hits) != 1:
+        raise M.Unsupported(f"{tail} on {param_ty}: {len(hits)} MIR functions")
+    return "^" + re.escape(hits[0]) + "$"
+
+
+def unit(n):
+    return f"(fp.leq {c(0)} {n}) (fp.leq {n} {c(1)})"
+
+
+def f32r(x):
+    """round a Python float to f32"""
+    try:
+        return struct.unpack("<f", struct.pack("<f", x))[0]
+    except OverflowError:
+        return float("inf") if x > 0 else float("-inf")
+
+
+def native_check(scratch, model, inputs, spec):
+    """spec = (extractor command, predicate(in_floats, out_floats) -> violated?)"""
+    cmd, pred = spec
+    vals = {}
+    for m in re.finditer(r"\(define-fun (\w+) \(\) \(_ FloatingPoint 8 24\) (\(fp #b[01] #b[01]{8} #b[01]{23}\))\)", model):
+        vals[m.group(1)] = fbits(m.group(2))
+    try:
+        bits = [vals[n] for n in inputs]
+    except KeyError:
+        return None
+    td = os.path.join(scratch, "extract_target")
+    out = subprocess.run(["cargo", "run", "-q", "--offline", "--manifest-path", os.path.join(extract_crate(scratch), "Cargo.toml"), "--target-dir", td,
+                          "--", cmd] + [f"{b:08x}" for b in bits], capture_output=True, text=True)
+    toks = out.stdout.split()
+    ins = [f_of(b) for b in bits]
+    if toks and toks[0] == "PANIC":
+        return dict(inputs=ins, input_bits=[f"{b:08x}" for b in bits], outputs="PANIC", violated_natively=True)
+    try:
+        outs = [f_of(int(t, 16)) for t in toks[:3]]
+    except ValueError:
+        return None
+    return dict(inputs=ins, input_bits=[f"{b:08x}" for b in bits], outputs=outs, violated_natively=bool(pred(ins, outs)))
+
+
+def c16_obligations(funcs, tier, scratch, say, cap):
+    res = []
+    to_rgb = pick(funcs, "::to_rgb", "Color<[f32; 3], Hsl>")
+    to_hsl = pick(funcs, "::to_hsl", "Color<[f32; 3], Rgb>")
+
+    def run_queries(name, sym, defs, queries, domain, oracle):
+        rec = dict(name=name, harness=name, cfg="mir(bare)+cvc5", kind="smt", domain=domain, oracle=oracle,
+                   functions_encoded=sorted("retrofire_core::" + x for x in sym.ex.encoded), queries=len(queries))
+        t0 = time.time()
+
+        natives = {q[0]: q[3] for q in queries if len(q) > 3}
+
+        def run(q):
+            label, body, expect = q[:3]
+            st, out, dt = M.run_cvc5(sym.header(defs) + body + "(check-sat)\n(get-model)\n", cap)
+            return label, st, out, dt, expect
+        with ThreadPoolExecutor(max_workers=8) as ex:
+            outs = list(ex.map(run, queries))
+        rec["solver_s"] = round(sum(o[3] for o in outs), 1)
+        rec["wall_s"] = round(time.time() - t0, 1)
+        rec["query_results"] = [{"query": o[0], "answer": o[1], "s": round(o[3], 1)} for o in outs]
+        bad = [o for o in outs if o[1] != o[4]]
+        cex = [o for o in bad if o[1] == "sat" and o[4] == "unsat"]
+        if cex:
+            # replay every counterexample natively: the real function on the model's inputs
+            reproduced, failed = [], []
+            for o in cex:
+                spec = natives.get(o[0])
+                info = native_check(scratch, o[2], sym.inputs, spec) if spec else None
+                (reproduced if info and info.get("violated_natively") else failed).append((o[0], info))
+            if reproduced:
+                d = os.path.join(os.path.dirname(HERE), "replay", "C16")
+                os.makedirs(d, exist_ok=True)
+                path = os.path.join(d, f"{name}.json")
+                import json
+                json.dump([dict(query=q_, **(i or {})) for q_, i in reproduced], open(path, "w"), indent=1)
+                rec.update(verdict="violation", replay=path,
+                           why="; ".join(f"{q_} -- native: inputs {i['inputs']} -> {i['outputs']}" for q_, i in reproduced)[:900])
+            else:
+                rec.update(verdict="machinery", why="counterexample does not reproduce natively: " + str(failed[0])[:400])
+            return rec
+        if not bad:
+            rec.update(verdict="discharged", why="")
+        elif any(o[1] not in ("sat", "unsat") for o in bad):
+            o = [o for o in bad if o[1] not in ("sat", "unsat")][0]
+            rec.update(verdict="inconclusive", why="; ".join(f"{o[0]}: solver answered {o[1]}" for o in bad if o[1] not in ("sat", "unsat"))[:600])
+        else:
+            o = bad[0]
+            rec.update(verdict="inconclusive", why=f"vacuity witness failed: {o[0]}")
+        return rec
+
+    # ---- translator validation on native vectors
+    for what, pat, names in (("hsl-to-rgb-vectors", to_rgb, ["h", "s", "l"]), ("rgb-to-hsl-vectors", to_hsl, ["r", "g", "b"])):
+        vec = native(scratch, what)
+        sym = Sym(funcs, names)
+        v, _ = sym.call(pat, [color3(*names)])
+        outs = chans(v)
+        defs = "".join(f"(define-fun o{i} () {F32} {t})\n" for i, t in enumerate(outs))
+
+        def one(row):
+            sc = sym.header(defs) + "".join(f"(assert (= {n} {fp_lit(b)}))\n" for n, b in zip(names, row[:3]))
+            sc += "(check-sat)\n(get-value (o0 o1 o2))\n"
+            st, out, dt = M.run_cvc5(sc, 120)
+            got = [fbits(x) for x in re.findall(r"\(fp #b[01] #b[01]{8} #b[01]{23}\)", out)]
+            if st != "sat" or len(got) != 3:
+                return ("error", row, out[:200])
+            nan = lambda b: (b & 0x7f800000) == 0x7f800000 and (b & 0x7fffff) != 0
+            ok = all(g == w or (nan(g) and nan(w)) or (g | 0x80000000) == (w | 0x80000000) == 0x80000000 for g, w in zip(got, row[3:]))
+            return ("ok" if ok else "mismatch", row, [f"{g:08x}" for g in got])
+        with ThreadPoolExecutor(max_workers=12) as ex:
+            rs = list(ex.map(one, vec))
+        bad = [r for r in rs if r[0] != "ok"]
+        say(f"  translator validation ({what}): {len(rs) - len(bad)}/{len(rs)} native vectors agree bit for bit")
+        if bad:
+            return [dict(name="c16_float_hsl_smt", harness="c16_float_hsl_smt", cfg="mir+cvc5", kind="smt", domain="", verdict="machinery",
+                         why=f"translator validation failed ({what}): {bad[0]}")]
+
+    isint_ = lambda t: f"(fp.eq (fp.roundToIntegral RNE {t}) {t})"
+    on = lambda n, den: f"(assert {isint_('(fp.mul RNE ' + n + ' ' + c(den) + ')')})\n"
+    full = tier == "thorough"
+    # quick tier: dyadic lattices (hue k/32: positions 3k/16 within the sextants - interiors and all boundaries;
+    # s, l, r, g, b on k/8); thorough tier: every float in [0,1] (capped; may stay inconclusive)
+    lat_hsl = "" if full else on("h", 32) + on("s", 8) + on("l", 8)
+    lat_rgb = "" if full else on("r", 8) + on("g", 8) + on("b", 8)
+    dom_txt_hsl = "every float h, s, l in [0,1]" if full else "h = k/32, s = i/8, l = j/8 (2673 colours: every sextant boundary and two interior hues per sextant)"
+    dom_txt_rgb = "every float r, g, b in [0,1]" if full else "r, g, b on k/8 (729 colours)"
+
+    # ---- HSL -> RGB: total, in range, sextants, hue 1 == hue 0, grays
+    sym = Sym(funcs, ["h", "s", "l"])
+    v, pan = sym.call(to_rgb, [color3("h", "s", "l")])
+    r_, g_, b_ = chans(v)
+    v0, pan0 = sym.call(to_rgb, [color3(c(0), "s", "l")])
+    v1, pan1 = sym.call(to_rgb, [color3(c(1), "s", "l")])
+    vg, _ = sym.call(to_rgb, [color3("h", c(0), "l")])
+    defs = (f"(define-fun R () {F32} {r_})\n(define-fun G () {F32} {g_})\n(define-fun B () {F32} {b_})\n"
+            f"(define-fun h6 () {F32} (fp.mul RNE h {c(6)}))\n")
+    dom_all = f"(assert (and {unit('h')} {unit('s')} {unit('l')}))\n"
+    dom = dom_all + lat_hsl
+    eps = c(2 ** -20)
+    inr = lambda t: f"(fp.leq (fp.neg {eps}) {t}) (fp.leq {t} (fp.add RNE {c(1)} {eps}))"
+    order = {0: "(fp.geq R G) (fp.geq G B)", 1: "(fp.geq G R) (fp.geq R B)", 2: "(fp.geq G B) (fp.geq B R)",
+             3: "(fp.geq B G) (fp.geq G R)", 4: "(fp.geq B R) (fp.geq R G)", 5: "(fp.geq R B) (fp.geq B G)"}
+    E = 2.0 ** -20
+    out_of_unit = lambda i, o: any(not (-E <= v <= 1 + E) for v in o)   # NaN counts as out of range
+    ordp = {0: lambda r, g, b: r >= g >= b, 1: lambda r, g, b: g >= r >= b, 2: lambda r, g, b: g >= b >= r,
+            3: lambda r, g, b: b >= g >= r, 4: lambda r, g, b: b >= r >= g, 5: lambda r, g, b: r >= b >= g}
+    q = [("no panic (unreachable sextant arm), every float h, s, l in [0,1]", dom_all + f"(assert {pan})\n", "unsat", ("hsl-to-rgb-at", lambda i, o: False))]
+    for k in range(6):
+        sx = f"(assert (and (fp.geq h6 {c(k)}) (fp.leq h6 {c(k + 1)})))\n"
+        q.append((f"channels in [0,1] (slack 2^-20), hue*6 in [{k},{k+1}]", dom + sx + f"(assert (not (and {inr('R')} {inr('G')} {inr('B')})))\n", "unsat", ("hsl-to-rgb-at", out_of_unit)))
+    for k in range(6):
+        q.append((f"sextant {k}: hue*6 in ({k},{k+1}) => channel order of that sextant",
+                  dom + f"(assert (and (fp.gt h6 {c(k)}) (fp.lt h6 {c(k + 1)})))\n(assert (not (and {order[k]})))\n", "unsat",
+                  ("hsl-to-rgb-at", (lambda kk: lambda i, o: not ordp[kk](*o))(k))))
+    q.append(("hue 1 == hue 0", f"(assert (and {unit('s')} {unit('l')}))\n" + ("" if full else on("s", 8) + on("l", 8)) + "(assert (not (and " +
+              " ".join(f"(fp.eq {a} {b})" for a, b in zip(chans(v0), chans(v1))) + ")))\n", "unsat"))
+    q.append(("grays: s = 0 => r = g = b = l, every float h, l in [0,1]", f"(assert (and {unit('h')} {unit('l')}))\n(assert (not (and " +
+              " ".join(f"(fp.eq {a} l)" for a in chans(vg)) + ")))\n", "unsat"))
+    q.append(("witness: a saturated mid-sextant colour", dom + f"(assert (and (fp.gt h6 {c(1.0)}) (fp.lt h6 {c(1.5)}) (fp.gt s {c(0.8)}) (fp.eq l {c(0.5)})))\n", "sat"))
+    res.append(run_queries("c16_hsl_to_rgb_float", sym, defs, q, dom_txt_hsl,
+                           "no panic; channels in [0,1]; channel order matches the hue sextant; hue 1 == hue 0; grays"))
+
+    # ---- RGB -> HSL: in range, grays
+    sym = Sym(funcs, ["r", "g", "b"])
+    v, pan = sym.call(to_hsl, [color3("r", "g", "b")])
+    H_, S_, L_ = chans(v)
+    vg, _ = sym.call(to_hsl, [color3("r", "r", "r")])
+    defs = f"(define-fun H () {F32} {H_})\n(define-fun S () {F32} {S_})\n(define-fun L () {F32} {L_})\n"
+    dom_all = f"(assert (and {unit('r')} {unit('g')} {unit('b')}))\n"
+    dom = dom_all + lat_rgb
+    q = [("no panic", dom_all + f"(assert {pan})\n", "unsat"),
+         ("h, s, l in [0,1] (slack 2^-20)", dom + f"(assert (not (and {inr('H')} {inr('S')} {inr('L')})))\n", "unsat", ("rgb-to-hsl-at", out_of_unit)),
+         ("grays: zero saturation, lightness kept", f"(assert (and {unit('r')} (fp.eq g r) (fp.eq b r)))\n(assert (not (and (fp.eq {chans(vg)[1]} {c(0)}) (fp.eq {chans(vg)[2]} r) (fp.eq {chans(vg)[0]} {c(0)}))))\n", "unsat",
+          ("rgb-to-hsl-at", lambda i, o: not (o[0] == 0.0 and o[1] == 0.0 and o[2] == i[0]))),
+         ("witness: hue wraps (blue > green, red max)", dom + "(assert (and (fp.gt r b) (fp.gt b g)))\n", "sat")]
+    # the tiny-value region where the old saturation formula blew up, on its own (fast for the solver)
+    tiny = f"(assert (and (fp.leq r {c(2.0 ** -24)}) (fp.leq g {c(2.0 ** -24)}) (fp.leq b {c(2.0 ** -24)})))\n"
+    q.append(("h, s, l in [0,1] for every float colour below 2^-24", dom_all + tiny + f"(assert (not (and {inr('H')} {inr('S')} {inr('L')})))\n", "unsat", ("rgb-to-hsl-at", out_of_unit)))
+    res.append(run_queries("c16_rgb_to_hsl_float", sym, defs, q, dom_txt_rgb + "; grays and the sub-2^-24 region: every float", "no panic; h, s, l in [0,1]; grays have s = 0, l = v"))
+
+    # ---- round trip on a dyadic lattice (quick) / all floats (thorough, capped)
+    sym = Sym(funcs, ["r", "g", "b"])
+    hv, pan_a = sym.call(to_hsl, [color3("r", "g", "b")])
+    back, pan_b = sym.call(to_rgb, [M.Val(None, "Color", fields=[hv.fields[0], M.Val(None, "()", fields=[], kind="unit")])])
+    R2, G2, B2 = chans(back)
+    defs = f"(define-fun R2 () {F32} {R2})\n(define-fun G2 () {F32} {G2})\n(define-fun B2 () {F32} {B2})\n"
+    tol = c(1e-4)
+    close = lambda a, b: f"(fp.leq (fp.abs (fp.sub RNE {a} {b})) {tol})"
+    isint = lambda t: f"(fp.eq (fp.roundToIntegral RNE {t}) {t})"
+    lat = "".join(f"(assert {isint('(fp.mul RNE ' + n + ' ' + c(16) + ')')})\n" for n in ("r", "g", "b"))
+    dom = f"(assert (and {unit('r')} {unit('g')} {unit('b')}))\n"
+    far = lambda i, o: any(not (abs(a - b) <= 1e-4) for a, b in zip(i, o))
+    lat8 = on("r", 8) + on("g", 8) + on("b", 8)
+    q = []
+    for nm, cond in (("red is the maximum", "(and (fp.geq r g) (fp.geq r b))"), ("green is the strict maximum over red", "(and (fp.gt g r) (fp.geq g b))"), ("blue is the strict maximum", "(and (fp.gt b r) (fp.gt b g))")):
+        q.append((f"round trip within 1e-4 on the k/8 lattice, {nm}", dom + lat8 + f"(assert {cond})\n(assert (not (and {close('R2', 'r')} {close('G2', 'g')} {close('B2', 'b')})))\n", "unsat", ("rgb-roundtrip-at", far)))
+    q.append(("no panic on the round trip (k/8 lattice)", dom + lat8 + f"(assert (or {pan_a} {pan_b}))\n", "unsat"))
+    if tier == "thorough":
+        lat16 = on("r", 16) + on("g", 16) + on("b", 16)
+        q.append(("round trip within 1e-4 on the k/16 lattice", dom + lat16 + f"(assert (not (and {close('R2', 'r')} {close('G2', 'g')} {close('B2', 'b')})))\n", "unsat", ("rgb-roundtrip-at", far)))
+    res.append(run_queries("c16_float_round_trip", sym, defs, q, "r, g, b = k/8 (quick: 729 colours, every sextant); k/16 (thorough)",
+                           "to_hsl then to_rgb returns the colour within 1e-4 per channel"))
+    return res
+
+
 def finite(n):
     return f"(not (fp.isNaN {n})) (not (fp.isInfinite {n}))"
 
@@ -166,7 +413,9 @@ def obligations(prop, tier, scratch, say):
         return rec
 
     try:
-        if prop == "C20":
+        if prop == "C16":
+            res += c16_obligations(funcs, tier, scratch, say, cap)
+        elif prop == "C20":
             enc = Encoded(funcs, r"float::fallback::rem_euclid$", ["x", "m"])
             vec = native(scratch, "rem-euclid-vectors")
             ok, bad = validate(enc, vec, 2)
@@ -185,19 +434,20 @@ def obligations(prop, tier, scratch, say):
                         "0 <= rem_euclid(x,m) <= m; no panic", q, "mir(bare)+cvc5")
             r1["translator_validation"] = f"{ok}/{len(vec)} native vectors"
             res.append(r1)
-            # congruence on the dyadic lattice, integer oracle
-            lat = ("(declare-const k (_ BitVec 16))\n(declare-const j (_ BitVec 16))\n"
-                   "(assert (and (bvsge k (bvneg (_ bv1024 16))) (bvsle k (_ bv1024 16)) (bvsge j (_ bv1 16)) (bvsle j (_ bv256 16))))\n"
-                   f"(assert (= x (fp.div RNE ((_ to_fp 8 24) RNE k) {c(16)})))\n(assert (= m (fp.div RNE ((_ to_fp 8 24) RNE j) {c(16)})))\n"
-                   "(define-fun kmod () (_ BitVec 16) (bvsmod k j))\n"
-                   f"(define-fun r16 () {F32} (fp.mul RNE result {c(16)}))\n")
+            # congruence on the dyadic lattice: x, m multiples of 1/16; (x - r)/m must be an integer.
+            # On this lattice x - r is exact and a non-integer quotient is at least 1/(16 m) away from
+            # an integer, far more than the rounding of one division, so "fl((x-r)/m) integral" is exact.
+            K, J = (256, 64) if tier == "quick" else (1024, 256)
+            isint = lambda t: f"(fp.eq (fp.roundToIntegral RNE {t}) {t})"
+            lat = (f"(assert (and {finite('x')} {finite('m')} (fp.gt m {c(0)}) (fp.leq (fp.abs x) {c(K / 16)}) (fp.leq m {c(J / 16)})))\n"
+                   f"(assert (and {isint('(fp.mul RNE x ' + c(16) + ')')} {isint('(fp.mul RNE m ' + c(16) + ')')}))\n"
+                   f"(define-fun quo () {F32} (fp.div RNE (fp.sub RNE x result) m))\n")
             q = [
-                ("congruence: 16*r == k mod j (or == j when k<0 is an exact multiple)",
-                 lat + "(assert (not (or (fp.eq r16 ((_ to_fp 8 24) RNE kmod)) (and (bvslt k (_ bv0 16)) (= kmod (_ bv0 16)) (fp.eq r16 ((_ to_fp 8 24) RNE j))))))\n", "unsat"),
-                ("witness: k < 0, non-multiple", lat + "(assert (and (bvslt k (_ bv0 16)) (distinct kmod (_ bv0 16))))\n", "sat"),
+                ("congruence: (x - r)/m is an integer and 0 <= r <= m", lat + f"(assert (not (and {isint('quo')} (fp.leq {c(0)} result) (fp.leq result m))))\n", "unsat"),
+                ("witness: negative non-multiple", lat + f"(assert (and (fp.lt x {c(0)}) (fp.lt result m) (fp.gt result {c(0)})))\n", "sat"),
             ]
-            r2 = record("c20_rem_euclid_congruent", enc, "x = k/16, m = j/16, |k| <= 1024, 1 <= j <= 256 (all pairs at once)",
-                        "rem_euclid(x,m)*16 == k mod j (integer oracle), i.e. congruent to x modulo m", q, "mir(bare)+cvc5")
+            r2 = record("c20_rem_euclid_congruent", enc, f"x = k/16, m = j/16, |k| <= {K}, 1 <= j <= {J} (all pairs at once)",
+                        "x - rem_euclid(x,m) is a whole multiple of m (and the result lies in [0,m])", q, "mir(bare)+cvc5")
             res.append(r2)
         elif prop == "C18":
             enc = Encoded(funcs, r"angle::<impl at .*>::wrap$", ["a", "lo", "hi"])
@@ -220,26 +470,25 @@ def obligations(prop, tier, scratch, say):
                         "lo <= wrap(a, lo, hi) <= hi (upper end closed only by rounding: slack 2^-20 of the interval length)", q, "mir(libm)+cvc5")
             r1["translator_validation"] = f"{ok}/{len(vec)} native vectors"
             res.append(r1)
-            lat = ("(declare-const k (_ BitVec 16))\n(declare-const p (_ BitVec 16))\n(declare-const j (_ BitVec 16))\n"
-                   "(assert (and (bvsge k (bvneg (_ bv1024 16))) (bvsle k (_ bv1024 16)) (bvsge p (bvneg (_ bv256 16))) (bvsle p (_ bv256 16)) (bvsge j (_ bv1 16)) (bvsle j (_ bv256 16))))\n"
-                   f"(assert (= a (fp.div RNE ((_ to_fp 8 24) RNE k) {c(16)})))\n(assert (= lo (fp.div RNE ((_ to_fp 8 24) RNE p) {c(16)})))\n"
-                   f"(assert (= hi (fp.div RNE ((_ to_fp 8 24) RNE (bvadd p j)) {c(16)})))\n"
-                   "(define-fun kmod () (_ BitVec 16) (bvsmod (bvsub k p) j))\n"
-                   f"(define-fun r16 () {F32} (fp.mul RNE result {c(16)}))\n")
+            K, J = (256, 64) if tier == "quick" else (1024, 256)
+            isint = lambda t: f"(fp.eq (fp.roundToIntegral RNE {t}) {t})"
+            on16 = lambda n: isint("(fp.mul RNE " + n + " " + c(16) + ")")
+            lat = (f"(assert (and {finite('a')} {finite('lo')} {finite('hi')} (fp.lt lo hi) (fp.leq (fp.abs a) {c(K / 16)}) (fp.leq (fp.abs lo) {c(16)}) (fp.leq (fp.sub RNE hi lo) {c(J / 16)})))\n"
+                   f"(assert (and {on16('a')} {on16('lo')} {on16('hi')}))\n"
+                   f"(define-fun quo () {F32} (fp.div RNE (fp.sub RNE a result) (fp.sub RNE hi lo)))\n")
             q = [
-                ("congruence: 16*wrap == p + ((k-p) mod j)  (or == p + j when k-p<0 is an exact multiple)",
-                 lat + "(assert (not (or (fp.eq r16 ((_ to_fp 8 24) RNE (bvadd p kmod))) (and (bvslt (bvsub k p) (_ bv0 16)) (= kmod (_ bv0 16)) (fp.eq r16 ((_ to_fp 8 24) RNE (bvadd p j)))))))\n", "unsat"),
-                ("witness: several revolutions below", lat + "(assert (bvslt (bvsub k p) (bvneg (bvmul (_ bv3 16) j))))\n", "sat"),
+                ("congruence: (a - wrap)/(hi - lo) is an integer and lo <= wrap <= hi", lat + f"(assert (not (and {isint('quo')} (fp.leq lo result) (fp.leq result hi))))\n", "unsat"),
+                ("witness: several revolutions below", lat + f"(assert (fp.lt a (fp.sub RNE lo (fp.mul RNE {c(3)} (fp.sub RNE hi lo)))))\n", "sat"),
             ]
-            r2 = record("c18_wrap_congruent", enc, "a = k/16, lo = p/16, hi = (p+j)/16; |k| <= 1024, |p| <= 256, 1 <= j <= 256",
-                        "wrap differs from a by a whole number of interval lengths and lies in [lo, hi] (integer oracle)", q, "mir(libm)+cvc5")
+            r2 = record("c18_wrap_congruent", enc, f"a, lo, hi multiples of 1/16; |a| <= {K}/16, |lo| <= 16, 0 < hi - lo <= {J}/16",
+                        "wrap differs from a by a whole number of interval lengths and lies in [lo, hi]", q, "mir(libm)+cvc5")
             res.append(r2)
     except M.Unsupported as e:
         res.append(dict(name=f"{prop.lower()}_smt", harness=f"{prop.lower()}_smt", cfg="mir+cvc5", kind="smt", domain="",
                         verdict="inconclusive", why=f"outside the translator's subset: {e}"))
     # native replay of counterexamples
     for r in res:
-        if r["verdict"] == "counterexample":
+        if r["verdict"] == "counterexample" and prop in ("C20", "C18"):
             replay_counterexample(prop, r, scratch, say)
     for r in res:
         say(f"  [{r['verdict']:12s}] {r['name']:48s} {r.get('wall_s', 0):7.1f}s  queries={r.get('queries', 0)} {r.get('why', '')[:150]}")
@@ -258,7 +507,9 @@ def replay_counterexample(prop, rec, scratch, say):
     path = os.path.join(d, f"{rec['name']}.json")
     td = os.path.join(scratch, "extract_target")
     try:
-        if prop == "C20":
+        if prop == "C16":
+            res += c16_obligations(funcs, tier, scratch, say, cap)
+        elif prop == "C20":
             x, m = vals["x"], vals["m"]
             out = subprocess.run(["cargo", "run", "-q", "--offline", "--manifest-path", os.path.join(extract_crate(scratch), "Cargo.toml"), "--target-dir", td,
                                   "--", "rem-euclid-at", f"{x:08x}", f"{m:08x}"], capture_output=True, text=True)
